@@ -208,3 +208,461 @@ theorem written_file_independent_of_directory (d d' : Dir) (comment fname versio
 
 end Shroud.Registry
 
+
+namespace Shroud.Registry
+
+/-! ### order-carrying containers: emitted order is insertion order of the input -/
+
+theorem dget_dput (k k' v : Nat) (c : Cont) :
+    dget k' (dput k v c) = if k' = k then some v else dget k' c := by
+  induction c with
+  | nil =>
+    by_cases h : k = k' <;> simp [dput, dget, h]
+    · intro h'; exact absurd h'.symm h
+  | cons p t ih =>
+    by_cases hp : p.1 = k
+    · by_cases h : k = k'
+      · subst h; simp [dput, dget, hp]
+      · have : ¬ k' = k := fun e => h e.symm
+        simp [dput, dget, hp, h, this]
+    · by_cases h : p.1 = k'
+      · have : ¬ k' = k := fun e => hp (h.trans e)
+        simp [dput, dget, h, this]
+      · simp [dput, dget, hp, h, ih]
+
+theorem keys_dput (k v : Nat) (c : Cont) :
+    (dput k v c).keys = if k ∈ c.keys then c.keys else c.keys ++ [k] := by
+  induction c with
+  | nil => simp [dput, Cont.keys]
+  | cons p t ih =>
+    by_cases hp : p.1 = k
+    · simp [dput, Cont.keys, hp]
+    · have hne : ¬ k = p.1 := fun e => hp e.symm
+      simp only [Cont.keys] at ih
+      simp only [dput, hp, if_false, Cont.keys, List.map_cons, List.mem_cons, hne, false_or, ih]
+      split <;> simp [*]
+
+theorem keys_insertAll (kvs : List (Nat × Nat)) (c : Cont) :
+    (insertAll kvs c).keys
+      = (kvs.map (·.1)).foldl (fun acc k => if k ∈ acc then acc else acc ++ [k]) c.keys := by
+  induction kvs generalizing c with
+  | nil => simp [insertAll]
+  | cons p t ih =>
+    simp only [insertAll, List.foldl_cons, List.map_cons] at ih ⊢
+    rw [ih (dput p.1 p.2 c), keys_dput]
+
+/-- **emitted order is insertion order**: iterating a container filled from any sequence of insertions yields
+    the keys in order of first insertion - for every input sequence (later re-assignments do not move a key). -/
+theorem emitted_order_is_insertion_order (kvs : List (Nat × Nat)) :
+    (insertAll kvs []).keys = firstOcc (kvs.map (·.1)) := by
+  simpa [firstOcc, Cont.keys] using keys_insertAll kvs []
+
+/-- and the value emitted for a key is the last one assigned -/
+theorem dget_insertAll (kvs : List (Nat × Nat)) (c : Cont) (k : Nat) :
+    dget k (insertAll kvs c) = match (kvs.reverse.find? (fun p => p.1 = k)) with
+      | some p => some p.2
+      | none => dget k c := by
+  induction kvs generalizing c with
+  | nil => simp [insertAll]
+  | cons p t ih =>
+    simp only [insertAll, List.foldl_cons] at ih ⊢
+    rw [ih (dput p.1 p.2 c), List.reverse_cons, List.find?_append]
+    cases hf : t.reverse.find? (fun p => p.1 = k) with
+    | some q => simp
+    | none =>
+      by_cases h : p.1 = k
+      · simp [dget_dput, h]
+      · have : ¬ k = p.1 := fun e => h e.symm
+        simp [dget_dput, h, this]
+
+example : (insertAll [(3, 0), (1, 0), (3, 7), (2, 0), (1, 5)] []).keys = [3, 1, 2] := by decide
+
+/-! ### one run against two process states -/
+
+/-- two process states agree where a run may look: on the registries in `s`, and on the keys in `sk` -/
+def AgreeOn (s : List Nat) (sk : List (Nat × Nat)) (w1 w2 : World) : Prop :=
+  (∀ r ∈ s, w1 r = w2 r) ∧ (∀ p ∈ sk, dget p.2 (w1 p.1) = dget p.2 (w2 p.1))
+
+theorem execFrom_agree (ops : List Op) : ∀ (s : List Nat) (sk : List (Nat × Nat)) (w1 w2 : World) (o : List Cont),
+    disciplined s sk ops = true → AgreeOn s sk w1 w2 →
+    (execFrom ops w1 o).out = (execFrom ops w2 o).out ∧ (execFrom ops w1 o).failed = (execFrom ops w2 o).failed ∧
+    (∀ r ∈ s, (execFrom ops w1 o).w r = (execFrom ops w2 o).w r) := by
+  induction ops with
+  | nil => intro s sk w1 w2 o _ h; exact ⟨rfl, rfl, h.1⟩
+  | cons op t ih =>
+    intro s sk w1 w2 o hd h
+    cases op with
+    | fail => exact ⟨rfl, rfl, h.1⟩
+    | reset r i =>
+      simp only [disciplined] at hd
+      have hA : AgreeOn (r :: s) sk (w1.set r i) (w2.set r i) := by
+        refine ⟨?_, ?_⟩
+        · intro q hq
+          by_cases e : q = r
+          · simp [World.set, e]
+          · simp only [List.mem_cons, e, false_or] at hq
+            simp [World.set, e, h.1 q hq]
+        · intro p hp
+          by_cases e : p.1 = r
+          · simp [World.set, e]
+          · simp [World.set, e, h.2 p hp]
+      have := ih (r :: s) sk _ _ o hd hA
+      exact ⟨this.1, this.2.1, fun q hq => this.2.2 q (List.mem_cons_of_mem _ hq)⟩
+    | put r k v =>
+      simp only [disciplined] at hd
+      have hA : AgreeOn s ((r, k) :: sk) (w1.set r (dput k v (w1 r))) (w2.set r (dput k v (w2 r))) := by
+        refine ⟨?_, ?_⟩
+        · intro q hq
+          by_cases e : q = r
+          · subst e; simp [World.set, h.1 q hq]
+          · simp [World.set, e, h.1 q hq]
+        · intro p hp
+          by_cases e : p.1 = r
+          · simp only [World.set, e, if_true, dget_dput]
+            by_cases e2 : p.2 = k
+            · simp [e2]
+            · simp only [e2, if_false]
+              simp only [List.mem_cons] at hp
+              rcases hp with hp | hp
+              · exact absurd (by rw [hp]) e2
+              · have := h.2 p hp; rw [e] at this; exact this
+          · simp only [List.mem_cons] at hp
+            rcases hp with hp | hp
+            · exact absurd (by rw [hp]) e
+            · simp [World.set, e, h.2 p hp]
+      exact ih s _ _ _ o hd hA
+    | putNew r k v =>
+      simp only [disciplined, Bool.and_eq_true, Bool.or_eq_true] at hd
+      obtain ⟨hread, hd⟩ := hd
+      have hg : dget k (w1 r) = dget k (w2 r) := by
+        rcases hread with hr | hr
+        · rw [h.1 r (by simpa using hr)]
+        · exact h.2 (r, k) (by simpa using hr)
+      have hA : AgreeOn s ((r, k) :: sk)
+          (match dget k (w1 r) with | some _ => w1 | none => w1.set r (dput k v (w1 r)))
+          (match dget k (w2 r) with | some _ => w2 | none => w2.set r (dput k v (w2 r))) := by
+        rw [← hg]
+        cases hc : dget k (w1 r) with
+        | some x =>
+          refine ⟨h.1, ?_⟩
+          intro p hp
+          simp only [List.mem_cons] at hp
+          rcases hp with hp | hp
+          · subst hp; exact hg
+          · exact h.2 p hp
+        | none =>
+          refine ⟨?_, ?_⟩
+          · intro q hq
+            by_cases e : q = r
+            · subst e; simp [World.set, h.1 q hq]
+            · simp [World.set, e, h.1 q hq]
+          · intro p hp
+            by_cases e : p.1 = r
+            · simp only [World.set, e, if_true, dget_dput]
+              by_cases e2 : p.2 = k
+              · simp [e2]
+              · simp only [e2, if_false]
+                simp only [List.mem_cons] at hp
+                rcases hp with hp | hp
+                · exact absurd (by rw [hp]) e2
+                · have := h.2 p hp; rw [e] at this; exact this
+            · simp only [List.mem_cons] at hp
+              rcases hp with hp | hp
+              · exact absurd (by rw [hp]) e
+              · simp [World.set, e, h.2 p hp]
+      exact ih s _ _ _ o hd hA
+    | emit r =>
+      simp only [disciplined, Bool.and_eq_true] at hd
+      have e : w1 r = w2 r := h.1 r (by simpa using hd.1)
+      simp only [execFrom, e]
+      exact ih s sk w1 w2 _ hd.2 h
+    | emitKey r k =>
+      simp only [disciplined, Bool.and_eq_true, Bool.or_eq_true] at hd
+      obtain ⟨hread, hd⟩ := hd
+      have hg : dget k (w1 r) = dget k (w2 r) := by
+        rcases hread with hr | hr
+        · rw [h.1 r (by simpa using hr)]
+        · exact h.2 (r, k) (by simpa using hr)
+      simp only [execFrom, hg]
+      exact ih s sk w1 w2 _ hd h
+
+end Shroud.Registry
+
+namespace Shroud.Registry
+
+/-! ### history independence over any list of earlier runs, complete or ended by an error at any stage -/
+
+/-- a run that writes no registry of `s0` leaves them as they were - whether it finishes or raises part-way -/
+theorem execFrom_frame (s0 : List Nat) (ops : List Op) : ∀ (w : World) (o : List Cont),
+    noWrite s0 ops = true → ∀ r ∈ s0, (execFrom ops w o).w r = w r := by
+  induction ops with
+  | nil => intro w o _ r _; rfl
+  | cons op t ih =>
+    intro w o hn r hr
+    simp only [noWrite, List.all_cons, Bool.and_eq_true] at hn
+    have ht : noWrite s0 t = true := by simpa [noWrite] using hn.2
+    have hne : ∀ q, op.target = some q → r ≠ q := by
+      intro q hq e
+      have h1 := hn.1
+      rw [hq] at h1
+      subst e
+      simp [hr] at h1
+    cases op with
+    | fail => rfl
+    | reset q i =>
+      simp only [execFrom]; rw [ih _ o ht r hr]; simp [World.set, hne q rfl]
+    | put q k v =>
+      simp only [execFrom]; rw [ih _ o ht r hr]; simp [World.set, hne q rfl]
+    | putNew q k v =>
+      simp only [execFrom]; rw [ih _ o ht r hr]
+      cases dget k (w q) <;> simp [World.set, hne q rfl]
+    | emit q => simp only [execFrom]; exact ih _ _ ht r hr
+    | emitKey q k => simp only [execFrom]; exact ih _ _ ht r hr
+
+theorem noWrite_take (s0 : List Nat) (ops : List Op) (n : Nat) (h : noWrite s0 ops = true) :
+    noWrite s0 (ops.take n) = true := by
+  simp only [noWrite, List.all_eq_true] at h ⊢
+  intro op hop
+  exact h op (List.mem_of_mem_take hop)
+
+/-- the process state after a history of earlier runs: run `y` of the history executed its first `n` stages
+    (`n ≥` its length: a complete run; smaller `n`: it ended in an error after stage `n`) -/
+def afterHistory {X : Type} (prog : X → List Op) (w0 : World) (hist : List (X × Nat)) : World :=
+  hist.foldl (fun w yn => (exec ((prog yn.1).take yn.2) w).w) w0
+
+theorem afterHistory_frame {X : Type} (prog : X → List Op) (s0 : List Nat)
+    (hframe : ∀ y, noWrite s0 (prog y) = true) (hist : List (X × Nat)) :
+    ∀ (w w0 : World), (∀ r ∈ s0, w r = w0 r) → ∀ r ∈ s0, afterHistory prog w hist r = w0 r := by
+  induction hist with
+  | nil => intro w w0 h r hr; exact h r hr
+  | cons yn t ih =>
+    intro w w0 h r hr
+    simp only [afterHistory, List.foldl_cons]
+    apply ih _ w0 _ r hr
+    intro q hq
+    rw [exec, execFrom_frame s0 _ w [] (noWrite_take s0 _ _ (hframe yn.1)) q hq]
+    exact h q hq
+
+/-- **history independence, process state.**  `s0`: the registries no run writes.  If the run for `x` keeps the
+    discipline (every stage reads only registries in `s0`, registries it reset earlier, or keys it wrote earlier),
+    then after ANY list of earlier runs - of any inputs, each complete or ended by an error after any number of
+    stages - its output, and whether it raises, are those of a run in a freshly started process. -/
+theorem next_run_independent_of_history {X : Type} (prog : X → List Op) (s0 : List Nat)
+    (hframe : ∀ y, noWrite s0 (prog y) = true)
+    (x : X) (hd : disciplined s0 [] (prog x) = true) (w0 : World) (hist : List (X × Nat)) :
+    (exec (prog x) (afterHistory prog w0 hist)).out = (exec (prog x) w0).out ∧
+    (exec (prog x) (afterHistory prog w0 hist)).failed = (exec (prog x) w0).failed := by
+  have hA : AgreeOn s0 [] (afterHistory prog w0 hist) w0 :=
+    ⟨afterHistory_frame prog s0 hframe hist w0 w0 (fun _ _ => rfl), by intro p hp; cases hp⟩
+  have := execFrom_agree (prog x) s0 [] _ _ [] hd hA
+  exact ⟨this.1, this.2.1⟩
+
+/-- the same for a run that itself ends in an error part-way: what it emitted up to there does not depend on the history -/
+theorem disciplined_take (ops : List Op) : ∀ (s : List Nat) (sk : List (Nat × Nat)) (n : Nat),
+    disciplined s sk ops = true → disciplined s sk (ops.take n) = true := by
+  induction ops with
+  | nil => intro s sk n h; simp [disciplined]
+  | cons op t ih =>
+    intro s sk n h
+    cases n with
+    | zero => simp [disciplined]
+    | succ n =>
+      cases op <;> simp_all [disciplined, List.take]
+
+theorem truncated_run_independent_of_history {X : Type} (prog : X → List Op) (s0 : List Nat)
+    (hframe : ∀ y, noWrite s0 (prog y) = true)
+    (x : X) (n : Nat) (hd : disciplined s0 [] (prog x) = true) (w0 : World) (hist : List (X × Nat)) :
+    (exec ((prog x).take n) (afterHistory prog w0 hist)).out = (exec ((prog x).take n) w0).out := by
+  have hA : AgreeOn s0 [] (afterHistory prog w0 hist) w0 :=
+    ⟨afterHistory_frame prog s0 hframe hist w0 w0 (fun _ _ => rfl), by intro p hp; cases hp⟩
+  exact (execFrom_agree _ s0 [] _ _ [] (disciplined_take _ s0 [] n hd) hA).1
+
+/-- the discipline is needed: a run that emits a registry it did not reset shows what an earlier run left there -/
+theorem undisciplined_run_leaks :
+    ∃ (prog : Bool → List Op) (w0 : World) (hist : List (Bool × Nat)),
+      (∀ y, noWrite [] (prog y) = true) ∧
+      (exec (prog false) (afterHistory prog w0 hist)).out ≠ (exec (prog false) w0).out :=
+  ⟨fun b => if b then [.put 0 1 1] else [.emit 0], fun _ => [], [(true, 1)],
+   by intro y; cases y <;> decide, by decide⟩
+
+/-- non-vacuity: registry 0 immutable, 1 reset by the run, 2 used per key; the history contains a run cut after one stage -/
+example : let prog : Nat → List Op := fun x =>
+      [.reset 1 [(x, x)], .put 1 7 x, .put 2 x 1, .putNew 2 x 5, .emit 0, .emit 1, .emitKey 2 x]
+    (∀ y, noWrite [0] (prog y) = true) ∧ disciplined [0] [] (prog 3) = true ∧
+    (exec (prog 3) (afterHistory prog (fun _ => []) [(9, 2), (4, 100)])).out = [[], [(3, 3), (7, 3)], [(3, 1)]] := by
+  refine ⟨?_, by decide, by decide⟩
+  intro y; simp [noWrite, Op.target]
+
+/-! ### the output directory: contents of written files and the reported lists do not depend on what was there -/
+
+theorem writeAll_always_eq (plan : List (Nat × List Nat)) : ∀ (d : FS) (n : Nat),
+    writeAll .always plan d n = match planned n plan with | some c => some c | none => d n := by
+  induction plan with
+  | nil => intro d n; rfl
+  | cons p t ih =>
+    intro d n
+    obtain ⟨m, c⟩ := p
+    simp only [writeAll, planned, FS.writeP]
+    rw [ih]
+    cases planned n t with
+    | some c' => rfl
+    | none =>
+      by_cases e : m = n
+      · subst e; simp [FS.write]
+      · have : ¬ n = m := fun h => e h.symm
+        simp [FS.write, e, this]
+
+/-- keeping an identical old file instead of rewriting it gives the same directory, file for file -/
+theorem writeP_ifChanged_eq (d : FS) (n : Nat) (c : List Nat) (i : Nat) :
+    d.writeP .ifChanged n c i = d.writeP .always n c i := by
+  simp only [FS.writeP]
+  split
+  · rename_i h
+    by_cases e : i = n
+    · subst e; simp [FS.write, h]
+    · simp [FS.write, e]
+  · rfl
+
+theorem writeAll_congr (p : WritePolicy) (plan : List (Nat × List Nat)) : ∀ (d d' : FS),
+    (∀ i, d i = d' i) → ∀ i, writeAll p plan d i = writeAll p plan d' i := by
+  induction plan with
+  | nil => intro d d' h i; exact h i
+  | cons q t ih =>
+    intro d d' h i
+    obtain ⟨m, c⟩ := q
+    simp only [writeAll]
+    apply ih
+    intro j
+    cases p with
+    | always => simp [FS.writeP, FS.write, h j]
+    | ifChanged =>
+      rw [writeP_ifChanged_eq, writeP_ifChanged_eq]
+      simp [FS.writeP, FS.write, h j]
+
+theorem writeAll_policy_irrelevant (plan : List (Nat × List Nat)) : ∀ (d : FS) (i : Nat),
+    writeAll .ifChanged plan d i = writeAll .always plan d i := by
+  induction plan with
+  | nil => intro d i; rfl
+  | cons q t ih =>
+    intro d i
+    obtain ⟨m, c⟩ := q
+    simp only [writeAll]
+    rw [ih]
+    exact writeAll_congr .always t _ _ (writeP_ifChanged_eq d m c) i
+
+theorem planned_isSome_iff (n : Nat) (plan : List (Nat × List Nat)) :
+    (planned n plan).isSome = true ↔ n ∈ reported plan := by
+  induction plan with
+  | nil => simp [planned, reported]
+  | cons p t ih =>
+    obtain ⟨m, c⟩ := p
+    simp only [planned, reported, List.map_cons, List.mem_cons] at ih ⊢
+    cases hp : planned n t with
+    | some c' =>
+      have : n ∈ List.map (fun x => x.fst) t := ih.mp (by simp [hp])
+      simp [this]
+    | none =>
+      have hnot : ¬ n ∈ List.map (fun x => x.fst) t := by
+        intro hm; have := ih.mpr hm; simp [hp] at this
+      by_cases e : m = n
+      · simp [e]
+      · have : ¬ n = m := fun h => e h.symm
+        simp [e, this, hnot]
+
+/-- **pre-existing files do not matter, run level.**  For every plan of writes (any number of files, a name may be
+    written more than once), either write policy, and any two directories the run may start from: every file the run
+    reports has the same final contents (the last text planned for it), the reported list is the same, and a file
+    the run does not write is left exactly as it was. -/
+theorem directory_independent_of_prior (p p' : WritePolicy) (plan : List (Nat × List Nat)) (d d' : FS) :
+    (∀ n ∈ reported plan, writeAll p plan d n = writeAll p' plan d' n ∧ writeAll p plan d n = planned n plan) ∧
+    (∀ n, n ∉ reported plan → writeAll p plan d n = d n) := by
+  have key : ∀ (q : WritePolicy) (e : FS) (n : Nat),
+      writeAll q plan e n = match planned n plan with | some c => some c | none => e n := by
+    intro q e n
+    cases q with
+    | always => exact writeAll_always_eq plan e n
+    | ifChanged => rw [writeAll_policy_irrelevant]; exact writeAll_always_eq plan e n
+  refine ⟨?_, ?_⟩
+  · intro n hn
+    have hs := (planned_isSome_iff n plan).mpr hn
+    rw [key p d n, key p' d' n]
+    cases hp : planned n plan with
+    | some c => simp
+    | none => simp [hp] at hs
+  · intro n hn
+    have hs : (planned n plan).isSome ≠ true := fun h => hn ((planned_isSome_iff n plan).mp h)
+    rw [key p d n]
+    cases hp : planned n plan with
+    | some c => simp [hp] at hs
+    | none => rfl
+
+example : writeAll .ifChanged [(1, [5]), (2, [6]), (1, [7])] (fun n => if n = 1 then some [7] else if n = 3 then some [0] else none) 1
+    = some [7] := by decide
+
+/-! ### end to end: process history and directory together -/
+
+/-- one complete run of the driver: the stages produce the emitted pieces, `render` (any function of the input and
+    of what the stages emitted) turns them into the plan of files, which is written into the directory;
+    a run that raised writes nothing further (the plan of a failed run is what `render` makes of the pieces so far) -/
+def fullRun {X : Type} (prog : X → List Op) (render : X → List Cont → Bool → List (Nat × List Nat))
+    (pol : WritePolicy) (x : X) (w : World) (d : FS) : FS × List Nat :=
+  let r := exec (prog x) w
+  let plan := render x r.out r.failed
+  (writeAll pol plan d, reported plan)
+
+/-- **C07 on the model**: for every input, every history of earlier runs in the process (complete or ended by an
+    error at any stage), every pair of starting directories and either write policy, the reported file list is the
+    same as for a fresh process and an empty directory, and so is every reported file, byte for byte. -/
+theorem full_run_pure {X : Type} (prog : X → List Op) (render : X → List Cont → Bool → List (Nat × List Nat))
+    (s0 : List Nat) (hframe : ∀ y, noWrite s0 (prog y) = true)
+    (x : X) (hd : disciplined s0 [] (prog x) = true) (w0 : World) (hist : List (X × Nat))
+    (pol pol' : WritePolicy) (d d' : FS) :
+    (fullRun prog render pol x (afterHistory prog w0 hist) d).2 = (fullRun prog render pol' x w0 d').2 ∧
+    ∀ n ∈ (fullRun prog render pol' x w0 d').2,
+      (fullRun prog render pol x (afterHistory prog w0 hist) d).1 n = (fullRun prog render pol' x w0 d').1 n := by
+  obtain ⟨ho, hf⟩ := next_run_independent_of_history prog s0 hframe x hd w0 hist
+  simp only [fullRun, ho, hf, true_and]
+  intro n hn
+  exact ((directory_independent_of_prior pol pol' _ d d').1 n hn).1
+
+end Shroud.Registry
+
+namespace Shroud.Registry
+open Shroud.Gen.Registry
+
+/-! ### regenerated stage traces of real runs keep the discipline -/
+
+/-- a trace row of `Gen/Registry.lean` as a modelled stage (values are abstracted: the discipline does not look at them) -/
+def opOfRow (r : Nat × Nat × Nat) : Op :=
+  match r.1 with
+  | 0 => .reset r.2.1 []
+  | 1 => .put r.2.1 r.2.2 0
+  | 3 => .emit r.2.1
+  | 4 => .emitKey r.2.1 r.2.2
+  | _ => .emit r.2.1          -- an unknown event kind counts as a read of the whole registry
+
+/-- the registries the probe classified immutable (contents identical at import and after every probed run) -/
+def immutableRegs : List Nat := (registryClasses.filter (fun p => p.2 == 0)).map (·.1)
+
+/-- **table theorem** (regenerated): in every traced real run - first runs of a process and runs after another
+    library - every stage reads only immutable registries, registries the same run reset earlier
+    (`typemap.initialize`, `update_for_language`, `update_stmt_tree`, `set_library`, a `global` rebinding, `clear()`),
+    or keys the same run wrote earlier.  This is hypothesis `hd` of `next_run_independent_of_history` / `full_run_pure`. -/
+theorem real_runs_disciplined :
+    traceProgs.all (fun t => disciplined immutableRegs [] (t.map opOfRow)) = true := by decide +kernel
+
+/-- **table theorem** (regenerated): no traced stage writes a registry classified immutable (hypothesis `hframe`) -/
+theorem real_runs_frame :
+    traceProgs.all (fun t => noWrite immutableRegs (t.map opOfRow)) = true := by decide +kernel
+
+/-- **table theorem** (regenerated): every registry whose contents change at run time is an insertion-ordered
+    container (dict, OrderedDict, list) or a rebound object - never a `set`, whose iteration order would depend on
+    the hash seed; with `emitted_order_is_insertion_order` and `no_ambient_state` (no iteration over set-typed
+    expressions anywhere) emitted order is insertion order of the input. -/
+theorem mutable_registries_keep_order :
+    registryKinds.all (fun p => p.2 != 3 || immutableRegs.contains p.1) = true := by decide +kernel
+
+/-- the traces are not empty: the theorems above say something -/
+theorem traces_nonvacuous : traceProgs.length ≥ 2 ∧ traceProgs.all (fun t => t.length ≥ 10) = true := by decide +kernel
+
+end Shroud.Registry
